@@ -18,7 +18,7 @@ def load_obligations():
         if not line or line.startswith("#"):
             continue
         name, _, desc = line.partition(" ")
-        res.append((P + name, desc.strip()))
+        res.append((("Cppcms.C06." + name) if name.startswith("Compose.") else (P + name), desc.strip()))
     return res
 
 
@@ -468,9 +468,9 @@ def main():
     scale = 25 if c.tier == "thorough" else 1
 
     c.translate("c06.py")
-    proved = c.prove(["Cppcms.C06.Props"], OBLIGATIONS, exe="c06_model")
+    proved = c.prove(["Cppcms.C06.Props", "Cppcms.C06.Compose"], OBLIGATIONS, exe="c06_model")
     if c.tier == "thorough" and proved:
-        c.leanchecker(["Cppcms.C06.Props"])
+        c.leanchecker(["Cppcms.C06.Props", "Cppcms.C06.Compose"])
     model = c.model_exe()
     ok_impl = c.impl_build()
     hbin = c.harness("c06") if ok_impl else None
